@@ -1,5 +1,5 @@
 # replay of a bounded stand-in violation (C17/C02): re-run native/c17_decomp.py
 import sys
-print('Interferometer(mesh=sun_compact) on block2+id (n=4, det=1.000000+0.000000j) raised ValueError: Input matrix must have determinant 1 to be decomposed into SU(2) parameters.')
+print('bipartite_graph_embed on complex Hermitian (n=2) rejected a valid input: ValueError: The input matrix is not symmetric')
 print('REPLAY-VIOLATION')
 sys.exit(1)
